@@ -53,6 +53,15 @@ def gen_instance(rng, big=False):
             req = rng.choice([2, 2, 3])
         custs.append([i, rng.randrange(-10, 11), rng.randrange(-10, 11), rng.choice([0, 1, 2, 3, 5]), tw0,
                       None if width is None else tw0 + width, rng.choice([0, 0, 1, 3]), req])
+    if rng.random() < 0.3:  # dyadic (non-integer) coordinates, demands, windows and service times
+        for c in custs:
+            c[1] += rng.choice([0.25, 0.5, 0.75])
+            c[2] -= rng.choice([0.25, 0.5])
+            c[3] += rng.choice([0, 0.5])
+            c[4] += rng.choice([0, 0.25])
+            if c[5] is not None:
+                c[5] += rng.choice([0.25, 0.5])
+            c[6] += rng.choice([0, 0.5])
     cap_mode = rng.choice(["inf", "inf", "loose", "tight", "none_fits"])
     vehs = []
     for v in range(nv):
@@ -87,7 +96,7 @@ def generate(rng, tier):
                 "max_no_improve": rng.choice([1, 5, 500]), "interval": rng.choice([0, 1, 1, 2, 5]),
                 "weights": rng.choice([None, None, {"distance_weight": 2.0, "vehicle_weight": 10.0, "tw_penalty": 7.0,
                                                      "capacity_penalty": 3.0, "sync_penalty": 11.0}]),
-                "clock": seams.gen_clock_case(rng, 80)}
+                "clock": seams.gen_clock_case(rng, 80), "as_tuples": rng.random() < 0.3}
         y = rng.random()
         if y < 0.45 or case["interval"] == 0:
             case["cancel"] = {"kind": "never"}
@@ -345,7 +354,11 @@ def run_vrptw(case, policy, o: Outcome | None, ref: Ref, record=True):
     m.vrp_objective = wrapped
     try:
         with seams.install_rng(RNG_MODULES, plan), seams.install_clock(clock):
-            res = m.solve_vrptw(custs[1:], vehs, tuple(inst["depot"]), max_iter=case["max_iter"], max_no_improve=case["max_no_improve"],
+            cust_arg = custs[1:]
+            veh_arg = vehs
+            if case.get("as_tuples"):  # the documented tuple form of customers, and an int fleet when capacities are uniform
+                cust_arg = [(c.id, c.x, c.y, c.demand, c.tw_start, c.tw_end, c.service_time, c.required_vehicles) for c in custs[1:]]
+            res = m.solve_vrptw(cust_arg, veh_arg, tuple(inst["depot"]), max_iter=case["max_iter"], max_no_improve=case["max_no_improve"],
                                 seed=case["seed"], on_progress=prog if case["interval"] else None,
                                 progress_interval=case["interval"], **(case.get("weights") or {}))
     except SOLVER_ERRORS as e:
@@ -443,12 +456,11 @@ def validate_schedule(jobs, sched):
     return None
 
 
-def run_jobshop(case, policy):
+def run_jobshop(case, policy, jobs):
     m = solvor_mod("job_shop")
     plan = seams.make_rng_plan(case.get("rng"))
     clock = seams.SimClock(case.get("clock"))
     prog = seams.Progressor(policy, clock)
-    jobs = [[tuple(op) for op in job] for job in case["jobs"]]
     res = exc = None
     try:
         with seams.install_rng(RNG_MODULES, plan), seams.install_clock(clock):
@@ -476,7 +488,8 @@ def judge_jobshop(case, r, o: Outcome, label):
 
 
 def exec_jobshop(case, o: Outcome):
-    base = run_jobshop(case, {"kind": "never"})
+    jobs = [[tuple(op) for op in job] for job in case["jobs"]]  # one job list shared by all runs of the case
+    base = run_jobshop(case, {"kind": "never"}, jobs)
     judge_jobshop(case, base, o, "baseline")
     main, policy = base, {"kind": "never"}
     c = case["cancel"]
@@ -484,7 +497,7 @@ def exec_jobshop(case, o: Outcome):
         T = base["prog"].ticks
         k = {"first": 1, "last": T}.get(c["mode"], 1 + int(c["frac"] * T))
         policy = {"kind": "tick", "k": min(k, T)}
-        main = run_jobshop(case, policy)
+        main = run_jobshop(case, policy, jobs)
         judge_jobshop(case, main, o, f"cancel({policy})")
         if main["prog"].cancelled_at:
             o.fault("cancel@tick")
@@ -492,7 +505,7 @@ def exec_jobshop(case, o: Outcome):
         o.fault("rng_boundary", base["plan"].fired)
     if base["plan"].unseeded_used:
         o.fault("rng_unseeded")
-    again = run_jobshop(case, policy)
+    again = run_jobshop(case, policy, jobs)
 
     def summ(r):
         if r["exc"] is not None:
